@@ -365,6 +365,9 @@ impl Scenario for Quiesce {
             p.wc.cfg.periodic_announce = Some(PeriodicParams { frequency: Duration::from_millis(s.range(period, 4 * period)), num_members: NonZeroUsize::new(1).unwrap() });
         }
         p.wc.net.corrupt_ppm = 0; // corruption fabricates identities (see DESIGN 11.2); not part of this premise
+        // a datagram held back or replayed beyond the end of the fault phase would be a fault inside the quiet phase
+        p.wc.net.replay_ppm = 0;
+        p.wc.net.spike_ppm = 0;
         // leaving is a deliberate, permanent departure: not a fault to recover from
         // the cluster is formed before the faults start (every node restored with the full membership)
         ops.retain(|(_, o)| !matches!(o, ChaosOp::Leave { .. } | ChaosOp::Skew { .. } | ChaosOp::Announce { .. }));
@@ -425,6 +428,7 @@ impl Scenario for Quiesce {
                     w.heal();
                     w.wc.net.drop_ppm = 0;
                     w.wc.net.dup_ppm = 0;
+                    w.wc.net.misdeliver_ppm = 0;
                     // the network is healthy again: latency back within the premise (< probe_rtt / 4)
                     let healthy = (p.wc.cfg.probe_rtt.as_nanos() as u64 / 4).saturating_sub(1).max(1);
                     w.wc.net.lat_max_ns = w.wc.net.lat_max_ns.min(healthy);
@@ -504,7 +508,7 @@ impl Scenario for Quiesce {
                             w.call(*node, Input::ChangeIdentity(crate::id::SimId::new(cur.addr, cur.gen + 1)));
                         }
                     }
-                    ChaosOp::Leave { .. } | ChaosOp::Skew { .. } => {}
+                    ChaosOp::Leave { .. } | ChaosOp::Skew { .. } | ChaosOp::Save { .. } => {}
                 },
                 Ok(None) => break,
                 Ok(Some(_)) => {}
